@@ -255,6 +255,47 @@ pub fn run(ctx: &mut Ctx) {
     });
     ctx.require(&r, &["len28", "len29", "len30", "len31"]);
 
+    // the complete interval space on anchor dates: every one of the 4,272,000,001 year-month intervals (a wrapped
+    // intermediate can bring a far-out-of-range target back into the range for a few offsets out of millions)
+    let anchors: Vec<(i32, u32, u32, bool)> = if ctx.thorough() {
+        vec![(2024, 6, 15, true), (1, 1, 1, true), (9999, 12, 31, true), (1969, 2, 28, true)]
+    } else {
+        vec![(2024, 6, 15, true), (1, 1, 1, false)]
+    };
+    ctx.bound("complete_interval_space", json!(format!("{} anchor dates x every month count in -2,136,000,000..=2,136,000,000", anchors.len())));
+    let span: u64 = 2 * 2_136_000_000 + 1;
+    for (ay, am, ad, both) in anchors {
+        let an = cal.day_number(ay, am, ad);
+        let date = Date::try_from_days(an).unwrap();
+        let r = ctx.sweep(&format!("every_interval_on_{ay:04}_{am:02}_{ad:02}"), &format!("Date {ay:04}-{am:02}-{ad:02} + every year-month interval{}", if both { " (add and sub)" } else { " (add)" }), span, 1 << 22, |range, acc| {
+            let (mut ok_n, mut err_n) = (0u64, 0u64);
+            for idx in range.clone() {
+                let k = idx as i64 - 2_136_000_000;
+                let iv = IntervalYM::try_from_months(k as i32).unwrap();
+                for sub in [false, true] {
+                    if sub && !both { continue; }
+                    let keff = if sub { -k } else { k };
+                    let (ny, nm) = add_months(ay, am, keff);
+                    let exp: Option<i64> = if (1..=9999).contains(&ny) && ad <= month_len(ny as i32, nm) { Some(cal.day_number(ny as i32, nm, ad) as i64 * US_DAY) } else { None };
+                    let got = guard(|| if sub { date.sub_interval_ym(iv) } else { date.add_interval_ym(iv) }.map(|t| t.usecs()).ok());
+                    if got == Ok(exp) { if exp.is_some() { ok_n += 1 } else { err_n += 1 } } else {
+                        let kind = match (&got, exp) { (Err(()), _) => "panic", (Ok(Some(_)), None) => "returns-value-where-no-such-date", (Ok(None), Some(_)) => "fails-where-date-exists", _ => "mismatch" };
+                        acc.fail(&format!("C09:Date:month-arith:{kind}"), idx, || (format!("Date {ay:04}-{am:02}-{ad:02} {} IntervalYM({k} months)", if sub { "-" } else { "+" }), format!("{exp:?} (µs of the midnight timestamp)"), format!("{got:?}"),
+                            format!("let r = Date::try_from_ymd({ay}, {am}, {ad}).unwrap().{}(IntervalYM::try_from_months({k}).unwrap());", if sub { "sub_interval_ym" } else { "add_interval_ym" })));
+                    }
+                }
+            }
+            let n = range.end - range.start;
+            acc.states += n;
+            acc.t(n * if both { 2 } else { 1 });
+            acc.traces += ok_n + err_n;
+            acc.nontrivial += ok_n;
+            if ok_n > 0 { acc.cls("target_exists"); }
+            if err_n > 0 { acc.cls("target_outside_range_or_no_such_day"); }
+        });
+        ctx.require(&r, &["target_exists", "target_outside_range_or_no_such_day"]);
+    }
+
     // hidden state behind last_day_of_month: alternation of every date with two February anchors
     crate::history::alternating_with_anchor(ctx, "C09", crate::history::Family::Accessors);
 }
